@@ -12,6 +12,7 @@ func TestVerif(t *testing.T) {
 		"C06": C06{},
 		"C07": C07{},
 		"C08": C08{},
+		"C10": C10{},
 		"C17": C17{},
 		"C18": C18{},
 		"C20": C20{},
